@@ -216,6 +216,22 @@ def _unroll_table_loops(tree):
                     and all(isinstance(e, ast.Tuple) for e in st.value.elts):
                 tables[nm] = st.value.elts
     tables = {k: v for k, v in tables.items() if counts.get(k) == 1}
+    # the scope (function or module) each loop belongs to: a loop variable
+    # that is read after its loop keeps the last value it was given
+    scope_of = {}
+    for sc in [tree] + [n for n in ast.walk(tree) if isinstance(
+            n, (ast.FunctionDef, ast.AsyncFunctionDef))]:
+        for n in ast.walk(sc):
+            if isinstance(n, ast.For):
+                scope_of[id(n)] = sc     # innermost wins (walked last)
+
+    def leaks(lp):
+        sc = scope_of.get(id(lp), tree)
+        names = {x.id for x in ast.walk(lp.target)
+                 if isinstance(x, ast.Name)}
+        inside = {id(x) for x in ast.walk(lp)}
+        return any(isinstance(x, ast.Name) and x.id in names and isinstance(
+            x.ctx, ast.Load) and id(x) not in inside for x in ast.walk(sc))
     for node in list(ast.walk(tree)):
         for fld in ('body', 'orelse', 'finalbody'):
             blk = getattr(node, fld, None)
@@ -225,6 +241,10 @@ def _unroll_table_loops(tree):
             i = 0
             while i < len(blk):
                 st = blk[i]
+                if isinstance(st, ast.For) and leaks(st):
+                    # the loop's variables are used after it: leave it
+                    i += 1
+                    continue
                 rep = _unrolled(st, tables) if isinstance(st, ast.For) \
                     else None
                 if rep is None and isinstance(st, ast.For):
